@@ -1,8 +1,10 @@
 package c08
 
 import (
+	"encoding/json"
 	"fmt"
 	"math/big"
+	"os"
 
 	"cosmossdk.io/log"
 	dbm "github.com/cosmos/cosmos-db"
@@ -28,9 +30,13 @@ import (
 // configuration (evm timeout 5 s, gas cap 25M).
 func runBackendHeights(run *vh.Run, label string, idx int) {
 	r := run.RNG("backend-heights", idx)
-	w := c13.NewWorld(r, c13.WorldCfg{MaxGas: -1, KeepBlocks: true, NumEOA: 6}, nil)
+	w := c13.NewWorld(r, c13.WorldCfg{MaxGas: -1, KeepBlocks: true, NumEOA: 6, Counter: 30}, nil)
 	defer w.C.Cleanup()
 	for b := 0; b < run.N(14, 40); b++ {
+		if b%3 == 1 {
+			w.Run(w.ComposeCounterBlock(r.Intn(4)))
+			continue
+		}
 		w.Step(r.Range(2, 8))
 	}
 	st := c14.BuildStore(w.C)
@@ -41,7 +47,9 @@ func runBackendHeights(run *vh.Run, label string, idx int) {
 	sctx.Viper.Set("json-rpc.evm-timeout", "5s")
 	sctx.Viper.Set("json-rpc.gas-cap", 25_000_000)
 	sctx.Viper.Set("json-rpc.enable", true)
-	be := rpcbackend.NewBackend(sctx, log.NewNopLogger(), cctx, indexer.NewKVIndexer(dbm.NewMemDB(), log.NewNopLogger(), cctx))
+	kvi := indexer.NewKVIndexer(dbm.NewMemDB(), log.NewNopLogger(), cctx)
+	be := rpcbackend.NewBackend(sctx, log.NewNopLogger(), cctx, kvi)
+	traceRecorded(run, label, w, st, kvi, be)
 	head := st.Height()
 	var heights []int64
 	for h := int64(2); h <= head; h++ {
@@ -87,6 +95,115 @@ func runBackendHeights(run *vh.Run, label string, idx int) {
 			run.Violation("eth_call-answer-not-from-the-requested-height:rpc-backend", label, map[string]any{"requested_height": h, "head": head, "account": x.Hex(),
 				"eth_call_returned_balance": got.String(), "bank_balance_at_requested_height": want.String(), "bank_balance_at_head": headBal.String(),
 				"init_code": common.Bytes2Hex(code)})
+		}
+	}
+}
+
+// debug_traceTransaction through the backend for executed Ethereum transactions of recorded blocks - especially those that
+// have other Ethereum transactions AND Cosmos transactions ahead of them in their block: the struct-logger trace replays
+// the block up to the transaction and reports the gas it used there.
+func traceRecorded(run *vh.Run, label string, w *c13.World, st *c14.Store, idx *indexer.KVIndexer, be *rpcbackend.Backend) {
+	if err := st.IndexAll(idx); err != nil {
+		run.Count("backend_trace_indexing_failed", 1)
+		return
+	}
+	dec := w.Decoder()
+	for h := int64(2); h <= st.Height(); h++ {
+		txs, res := st.Recorded(h)
+		bt := c13.ParseBlock(txs, res, dec)
+		for k, t := range bt.Exec {
+			if t.Code != 0 || k == 0 || !t.HasReceipt {
+				continue // traced only when executed successfully at consensus level and preceded by another executed Ethereum tx
+			}
+			cosmosAhead := false
+			for _, x := range bt.Txs[:t.Pos] {
+				if !x.IsEth {
+					cosmosAhead = true
+				}
+			}
+			allAheadOK := true
+			for _, x := range bt.Exec[:k] {
+				allAheadOK = allAheadOK && x.Code == 0
+			}
+			if !allAheadOK {
+				continue
+			}
+			// The backend hands the Ethereum transactions ahead to TraceTx as predecessors and leaves the Cosmos ones out, so
+			// the replay differs from the execution by construction when a Cosmos transaction ahead was signed by one of the
+			// senders involved (its sequence is one behind in the replay). Judged only when every nonce involved is the one
+			// the state before the block plus the sender's own Ethereum transactions ahead give.
+			clean := true
+			if pctx, err := w.C.App.CreateQueryContext(h-1, false); err != nil {
+				clean = false
+			} else {
+				seen := map[common.Address]uint64{}
+				for _, x := range bt.Exec[:k+1] {
+					if x.Tx.Nonce() != w.C.App.EvmKeeper.GetNonce(pctx, x.Sender)+seen[x.Sender] {
+						clean = false
+					}
+					seen[x.Sender]++
+				}
+			}
+			if !clean {
+				run.Count("backend_traces_not_judged_a_sender_has_a_cosmos_transaction_ahead", 1)
+				continue
+			}
+			var out any
+			var terr error
+			func() {
+				defer func() {
+					if p := recover(); p != nil {
+						terr = fmt.Errorf("panic: %v", p)
+					}
+				}()
+				out, terr = be.TraceTransaction(t.Hash, &evmtypes.TraceConfig{})
+			}()
+			run.Eval(1)
+			if terr != nil {
+				run.Count("backend_trace_transaction_errors", 1)
+				run.Distinct("backend_trace_error_texts", trunc(terr.Error(), 100))
+				if os.Getenv("C08_DEBUG") != "" {
+					fmt.Fprintf(os.Stderr, "TRACE-ERR h=%d pos=%d k=%d err=%v\n", h, t.Pos, k, terr)
+					for _, x := range bt.Txs[:t.Pos+1] {
+						fmt.Fprintf(os.Stderr, "   pos=%d eth=%v class=%s code=%d reached=%v receipt=%v sender=%s nonce=%v log=%s\n", x.Pos, x.IsEth, x.Class, x.Code, x.Reached, x.HasReceipt, x.Sender.Hex(), func() any {
+							if x.Tx != nil {
+								return x.Tx.Nonce()
+							}
+							return "-"
+						}(), trunc(x.Log, 80))
+					}
+				}
+				continue
+			}
+			bz, _ := json.Marshal(out)
+			var tr struct {
+				Gas    uint64 `json:"gas"`
+				Failed bool   `json:"failed"`
+			}
+			if json.Unmarshal(bz, &tr) != nil || tr.Gas == 0 {
+				continue
+			}
+			run.Count("backend_traces_of_recorded_transactions", 1)
+			dependsOnAhead := false
+			if t.Tx.To() != nil && *t.Tx.To() == w.CounterAddr {
+				for _, x := range bt.Exec[:k] {
+					dependsOnAhead = dependsOnAhead || (x.Tx.To() != nil && *x.Tx.To() == w.CounterAddr)
+				}
+			}
+			if dependsOnAhead {
+				run.Count("backend_traces_whose_gas_depends_on_an_earlier_transaction_of_the_block", 1)
+				if cosmosAhead {
+					run.Count("backend_traces_whose_gas_depends_on_an_earlier_transaction_behind_a_cosmos_transaction", 1)
+				}
+			}
+			if cosmosAhead {
+				run.Count("backend_traces_with_cosmos_and_ethereum_transactions_ahead", 1)
+				run.Nontrivial("backend-trace|cosmos-and-eth-ahead")
+			}
+			if tr.Gas != t.RcGasUsed {
+				run.Violation("trace-of-a-recorded-transaction-differs-from-its-execution:rpc-backend", label, map[string]any{"height": h, "tx_hash": t.Hash.Hex(), "position_in_block": t.Pos,
+					"ethereum_txs_ahead": k, "cosmos_tx_ahead": cosmosAhead, "traced_gas": tr.Gas, "executed_gas_used": t.RcGasUsed})
+			}
 		}
 	}
 }
